@@ -7,10 +7,19 @@
 struct BodyIdx { void operator()(long i) const; };
 struct BodyRange { void operator()(int a, int b) const; };
 struct Thunk { void operator()() const; };
+// a user-supplied range for the range-based parallel_for: every member is only declared, so that each use stays a visible call
+struct Rng {
+  typedef int const_iterator;
+  Rng(int b, int e, int g);
+  int begin() const; int end() const; int grainsize() const;
+  bool empty() const; bool is_divisible() const;
+};
+struct BodyRng { void operator()(const Rng & r) const; };
 
 template BodyIdx mtbb::parallel_for<long, BodyIdx>(long, long, const BodyIdx &);
 template BodyIdx mtbb::parallel_for<long, BodyIdx>(long, long, long, const BodyIdx &);
 template BodyRange mtbb::parallel_for<int, BodyRange>(int, int, int, int, const BodyRange &);
+template void mtbb::parallel_for<Rng, BodyRng>(const Rng &, BodyRng &);
 
 void mythverif_use_task_group(mtbb::task_group & tg, Thunk t) {
   tg.run(t);
